@@ -28,6 +28,7 @@ import threading
 import time
 
 FOREIGN = "<foreign>"
+DEFAULT_SIDE = "<default-side>"  # pseudo label for replay planning: always mapped to the first (default) real object
 
 
 class HarnessError(Exception):
@@ -78,6 +79,26 @@ class Threads:
             except BaseException as e:  # noqa
                 return ("exc", e)
         return w.call(f)
+
+    def must_all(self, f, timeout=60):
+        """run the (read-only) closure f in every thread concurrently; -> list of results in thread order"""
+        cur = threading.current_thread()
+        for w in self.workers:
+            if w is not cur:
+                w.q.put(f)
+        out = []
+        for t, w in enumerate(self.workers):
+            if w is cur:
+                st, v = self.run(t, f)
+            else:
+                try:
+                    st, v = w.r.get(timeout=timeout)
+                except queue.Empty:
+                    raise HarnessError(f"worker {w.name} did not answer within {timeout}s")
+            if st != "ok":
+                raise HarnessError(f"harness action failed in thread {t}: {type(v).__name__}: {v}")
+            out.append(v)
+        return out
 
     def must(self, t, f):
         st, v = self.run(t, f)
@@ -172,6 +193,19 @@ class Ids:
 
 
 # ----------------------------------------------------------------------------------------------- obligations
+_SOLVER = []
+
+
+def _solver(timeout_ms):
+    """one z3 solver per process; every scenario lives in its own push/pop scope"""
+    if not _SOLVER:
+        import z3
+
+        _SOLVER.append(z3.Solver())
+    _SOLVER[0].set("timeout", timeout_ms)
+    return _SOLVER[0]
+
+
 class Checker:
     """Obligations of ONE scenario.  `eq(name, pairs)`: pairs of (observed label, expected label expr, where);
     `fact(name, ok, detail)`: a concrete control-flow fact (exception raised / not raised)."""
@@ -206,6 +240,13 @@ class Checker:
         self.pending.append((slot, pairs))
 
     def finish(self):
+        try:
+            return self._finish()
+        except BaseException:
+            _SOLVER.clear()  # never reuse a solver whose scopes may be unbalanced
+            raise
+
+    def _finish(self):
         """decide the pending equalities of the scenario: ONE solver holding the alias/distinctness constraints;
         first a single query for the disjunction of all obligations (unsat => every obligation holds for every
         interpretation); only when that is sat, one push/check/pop per obligation to localise the failure."""
@@ -222,13 +263,12 @@ class Checker:
             ds = [ids.smt_differs(o, e, roles, flags) for (o, e, w) in pairs]
             obl.append("(assert (or false " + " ".join(ds) + "))")
         decls, asserts = ids.prelude(roles, flags)
-        vec = z3.parse_smt2_string("\n".join(decls + asserts + obl))
-        ncon = len(asserts)
-        s = z3.Solver()
-        s.set("timeout", self.timeout_ms)
-        for i in range(ncon):
-            s.add(vec[i])
-        forms = [vec[ncon + i] for i in range(len(work))]
+        con = "(assert (and true " + " ".join(a[len("(assert "):-1] for a in asserts) + "))"
+        vec = z3.parse_smt2_string("\n".join(decls + [con] + obl))
+        s = _solver(self.timeout_ms)
+        s.push()  # scenario scope: alias partition, distinctness, presence flags
+        s.add(vec[0])
+        forms = [vec[1 + i] for i in range(len(work))]
         s.push()
         s.add(z3.Or(forms))
         r_all = str(s.check())
@@ -237,6 +277,7 @@ class Checker:
         dt_all = time.time() - t0
         self.solver_s += dt_all
         if r_all == "unsat":
+            s.pop()
             for slot, pairs in work:
                 slot["verdict"] = "proved"
                 slot["seconds"] = round(dt_all / len(work), 6)
@@ -263,11 +304,16 @@ class Checker:
             bad = [(o, e, w) for (o, e, w) in pairs if ids.concrete(o) not in ids.alternatives(e)]
             o, e, w = bad[0]
             pair = [(ids.concrete(o), x) for x in ids.alternatives(e)]  # representatives that a replay has to keep apart
-            if any(FOREIGN in p for p in pair):
-                pair = None  # nothing to separate: the observation was not a backend of the scenario at all
+            if any(x == FOREIGN for _, x in pair):
+                pair = None
+            else:
+                # an observation that is no backend of the scenario at all (e.g. a call that ran on a statically bound
+                # backend): the replay puts the expected backend on the non-default real object
+                pair = [(DEFAULT_SIDE if a == FOREIGN else a, x) for a, x in pair]
             slot["verdict"] = "violated"
             slot["pair"] = pair
             slot["detail"] = "; ".join(f"{w}: observed {o if str(o).startswith(FOREIGN) else ids.concrete(o)} expected {' or '.join(map(str, ids.alternatives(e)))}" for o, e, w in bad[:4])
+        s.pop()
         return self
 
     def failed(self):
@@ -289,7 +335,7 @@ def two_colour(pairs):
             return None
         adj.setdefault(a, set()).add(b)
         adj.setdefault(b, set()).add(a)
-    for start in adj:
+    for start in sorted(adj, key=lambda x: x != DEFAULT_SIDE):
         if start in colour:
             continue
         colour[start] = 0
